@@ -120,4 +120,4 @@ def twin(name):
 def kov(name):
     """Same values, stored under ONE key override shared by all calls of this function."""
     sys.audit("vf.body", "kov", name)
-    return KeyOverrideResult(build(name), "ko/shared")
+    return KeyOverrideResult(build(name), "ko/sha#red/x")
